@@ -8,5 +8,7 @@ pub(crate) mod rt;
 pub(crate) mod fmod;
 pub(crate) mod kf;
 pub(crate) mod model_map;
+pub(crate) mod seed;
 pub(crate) mod spec;
 pub(crate) mod spec_country;
+pub(crate) mod spec_nl;
